@@ -5,6 +5,7 @@ import Vanguard.Model.Timeout
 import Vanguard.Model.Router
 import Driver.E2E
 import Vanguard.Model.Pool
+import Driver.Config
 /-!
   Line protocol: one operation per line, `op arg …` (byte strings in hex, `-` = empty,
   numbers in decimal); one canonical result per line.  The Go harness prints the
@@ -122,6 +123,8 @@ def dispatch : List String → String
       | _ => none
     if evs.any Option.isNone then "bad-op"
     else if checkTrace (evs.filterMap id) then "exclusive" else "shared"
+  | ["config", h] => runConfig h
+  | ["config_err", h] => runConfigErr h
   | ["e2e_hist", h] => runE2E h ++ " ## " ++ runE2E h
   | ["e2e_getpost", a, b] => runE2E a ++ " ## " ++ runE2E b
   | ["e2e_pair", a, b] => projectForChunking (runE2E a) ++ " ## " ++ projectForChunking (runE2E b)
